@@ -220,7 +220,8 @@ func (g *ScopeGen) params(e *scopeEnv) []string {
 	seen := map[string]bool{}
 	for i := g.pick(4); i > 0; i-- {
 		p := g.poolName()
-		if seen[p] {
+		if seen[p] && g.pick(3) != 0 {
+			// now and then a parameter name is repeated: the last one counts
 			continue
 		}
 		seen[p] = true
